@@ -51,7 +51,12 @@ def scenario(draw, tier="quick"):
         for name in "ABC":
             filters[name] = draw(st.sampled_from([{}, {}, {"inplay": True}, {"inplay": False}, {"seconds_to_start": 10},
                                                   {"max_inplay_seconds": 5}, {"inplay": True, "max_inplay_seconds": 20}]))
-    return {"market": spec, "scripts": scripts, "own_client": own_client, "fault": fault, "filters": filters,
+    txn_raise = None
+    if draw(st.integers(0, 3)) == 0:
+        # B batches requests in `with market.transaction()` and its code raises inside the block after they were accepted
+        k = draw(st.integers(1, max(1, len(states) - 2)))
+        txn_raise = {"at": k, "ops": [draw(gen.place_op(spec, states[min(k, len(states) - 1)], nr, **kw)) for _ in range(draw(st.integers(1, 3)))]}
+    return {"market": spec, "scripts": scripts, "own_client": own_client, "fault": fault, "filters": filters, "txn_raise": txn_raise,
             "limits": draw(st.sampled_from([{}, {"max_live_trade_count": 2}, {"max_selection_exposure": 50, "max_order_exposure": 30}]))}
 
 
@@ -87,10 +92,15 @@ def resting_case(draw, tier="quick"):
     return {"market": spec, "scripts": scripts, "own_client": draw(st.booleans()), "fault": None, "limits": {}}
 
 
-def build(c, names, fault=None):
+def build(c, names, fault=None, txn=None):
     strategies = []
     for i, n in enumerate(names):
         s = gen.strategy_spec(n, client=(0 if (n == "A" or not c["own_client"]) else 1), script=copy.deepcopy(c["scripts"][n]))
+        if txn and n == "B" and c.get("txn_raise"):
+            tr = c["txn_raise"]
+            ops = copy.deepcopy(tr["ops"]) + ([{"op": "raise"}] if txn == "raise" else [])
+            # B's own scripted entries at that update are dropped so that the block is the last thing the callback does
+            s["script"] = [e for e in s["script"] if e["at"] != tr["at"]] + [{"m": 0, "at": tr["at"], "ops": [{"op": "txn", "ops": ops}]}]
         s.update(c["limits"])
         steps_ = c["market"]["steps"]
         if (c.get("filters") or {}).get(n) and steps_ and steps_[-1]["k"] == "close":
@@ -107,8 +117,8 @@ def build(c, names, fault=None):
     return sc
 
 
-def run(c, names, fault=None):
-    sc = build(c, names, fault)
+def run(c, names, fault=None, txn=None):
+    sc = build(c, names, fault, txn)
     with simlab.lab(sc, snapshots=False) as lb:
         lb.run()
         if lb.error is not None:
@@ -217,6 +227,22 @@ def check(c):
                               (s.size_matched, s.size_remaining, s.size_cancelled, s.size_lapsed, s.size_voided), o.order_type.size), c)
           else:
             classes.add("fault-not-reached")
+    # ---- an exception raised inside a transaction block of B's callback, after requests were accepted
+    if c.get("txn_raise"):
+        led_ok, _, _, _, _ = run(c, ["A", "B"], txn="plain")
+        led_ex, seq_ex, _, fired, _ = run(c, ["A", "B"], txn="raise")
+        if fired:
+            nontrivial = True
+            classes.add("exception-inside-transaction-block")
+            # (the op log necessarily differs: the block's own entry is only written when it ends normally)
+            d = diff({"orders": led_ok["B"]["orders"], "ops": []}, {"orders": led_ex["B"]["orders"], "ops": []})
+            if d:
+                raise Violation("callback-error-not-contained", ("transaction-block", "requests-accepted-before-the-exception"),
+                                "B raised inside `with market.transaction()` after its requests were accepted; compared with the same block ending normally: %s" % d, c)
+            d = diff(led_ok["A"], led_ex["A"])
+            if d:
+                raise ledger_violation(c, ["A", "B"], led_ok["A"], led_ex["A"], "callback-error-not-contained", ("transaction-block", "other-strategy"),
+                                       "B's exception inside a transaction block changed A: %s" % d)
     return nontrivial, classes
 
 
